@@ -106,3 +106,20 @@ Theorem C10_resample_keeps_marginal :
     idx <> [] -> weights c <> [] -> (marginal (resample d c idx) == marginal c)%Q.
 Proof. intros. apply resample_marginal; assumption. Qed.
 Print Assumptions C10_resample_keeps_marginal.
+
+(** ** the evidence estimate of init is unbiased (finite discrete, Cond-free targets,
+    default proposal, N >= 1 independent particles, no mass lost to exceptions):
+    E[ (1/N) sum_i exp(w_i) ] = P_simulate(observations).  The estimate after
+    extend / resample / rejuvenate stages is covered by the weight identities above
+    only (partial). *)
+From Coq Require Import Qcanon.
+From GV Require Import Lemmas.Law.
+Theorem C10_init_estimate_unbiased :
+  forall (U : list value), NoDup U ->
+  forall g obs args n, NC g -> leaves_in U obs -> (0 < n)%nat ->
+    Ex U (init_default g args obs) (fun _ => 1%Qc) = 1%Qc ->
+    Ex U (repl n (init_default g args obs))
+       (fun ps => sumf (fun tw => pow2 (snd tw)) ps / qcn n)%Qc
+    = Ex U (gf_simulate g args) (fun t => if agreesb (Some obs) t then 1%Qc else 0%Qc).
+Proof. intros U HU g obs args n. apply smc_init_estimate_unbiased. exact HU. Qed.
+Print Assumptions C10_init_estimate_unbiased.
